@@ -2777,6 +2777,8 @@ impl Server {
         let mut expiration = None;
         let mut nx = false; // Only set if key doesn't exist
         let mut xx = false; // Only set if key exists
+        let mut ex = false; // EX seen: PX is then a syntax error
+        let mut px = false; // PX seen: EX is then a syntax error
         
         let mut i = 3;
         while i < parts.len() {
@@ -2785,9 +2787,11 @@ impl Server {
                     let option_str = String::from_utf8_lossy(option).to_uppercase();
                     match option_str.as_str() {
                         "EX" => {
-                            if i + 1 >= parts.len() {
+                            // EX and PX exclude each other
+                            if px || i + 1 >= parts.len() {
                                 return Ok(RespFrame::error("ERR syntax error"));
                             }
+                            ex = true;
                             if let RespFrame::BulkString(Some(seconds_bytes)) = &parts[i + 1] {
                                 if let Ok(seconds_str) = String::from_utf8(seconds_bytes.as_ref().clone()) {
                                     if let Ok(seconds) = seconds_str.parse::<u64>() {
@@ -2804,9 +2808,11 @@ impl Server {
                             return Ok(RespFrame::error("ERR invalid expire time"));
                         }
                         "PX" => {
-                            if i + 1 >= parts.len() {
+                            // EX and PX exclude each other
+                            if ex || i + 1 >= parts.len() {
                                 return Ok(RespFrame::error("ERR syntax error"));
                             }
+                            px = true;
                             if let RespFrame::BulkString(Some(millis_bytes)) = &parts[i + 1] {
                                 if let Ok(millis_str) = String::from_utf8(millis_bytes.as_ref().clone()) {
                                     if let Ok(millis) = millis_str.parse::<u64>() {
